@@ -20,6 +20,10 @@ def files : List (String × String) := [
   ("secret.txt", "SENTINEL-ROOT"),
   ("site/secret2.txt", "SENTINEL-SITE"),
   ("site/public.txt", "SENTINEL-BESIDE"),
+  ("site/secret.html", "SENTINEL-SITE-HTML"),
+  ("site/index.html", "SENTINEL-SITE-INDEX"),
+  ("site/secret-\uFFFD.txt", "SENTINEL-LOSSY"),
+  ("site/\uFFFD", "SENTINEL-LOSSY-BARE"),
   ("site/public/index.html", "PUB-INDEX"),
   ("site/public/a/index.html", "PUB-A-INDEX"),
   ("site/public/a/b.html", "PUB-AB"),
